@@ -231,18 +231,33 @@ def _limit(n):
     return C0 + C1 * (n + 1)
 
 
-def encode_own(ct, term, v):
+def encode_own(ct, term, v, why=None):
     """Encode v with its own version and confirm the own-version round trip.
-    Returns bytes, or None when the precondition fails."""
+    Returns bytes, or None when the precondition fails (reason appended to `why`)."""
     try:
         enc, _ = budget.run(_limit(64) + 100 * _sizeof(v), ct.encode, v)
         enc = bytes(enc)
+    except budget.BudgetExceeded:
+        if why is not None:
+            why.append('encode:BudgetExceeded')
+        return None
+    except Exception as e:
+        if why is not None:
+            why.append('encode:' + errclass(e)[:48])
+        return None
+    try:
         dec, _ = budget.run(_limit(len(enc)), ct.decode, enc)
     except budget.BudgetExceeded:
+        if why is not None:
+            why.append('decode:BudgetExceeded')
         return None
-    except Exception:
+    except Exception as e:
+        if why is not None:
+            why.append('decode:' + errclass(e)[:48])
         return None
     if dec != v and not absval.eq(term, v, dec, {}, False):
+        if why is not None:
+            why.append('decode:different value')
         return None
     return enc
 
@@ -444,9 +459,11 @@ class Side:
             term = self.terms[i][0]
             lst = []
             for v in self.values(i):
-                e = encode_own(ct, term, v)
+                why = []
+                e = encode_own(ct, term, v, why)
                 if e is None:
                     self.res.count('values_failing_own_round_trip')
+                    self.res.outcome('own-version-round-trip-fails(out of scope):%s:%s' % (codec, why[0]))
                 lst.append(e)
             self.encs[key] = lst
         return self.encs[key]
